@@ -54,6 +54,12 @@ var gens = []generator{
 	{file: "OriginReader.lean", src: "seqio/genbank_subparsers.go (makeGenbankOriginParser)", run: genOriginReader},
 	{file: "PanicSites.lean", src: "the parser files anchored by C07", run: genPanicSites},
 	{file: "CacheFile.lean", src: "cmd/cache/header.go, cmd/cache/file.go, cmd/gts/io.go", run: genCacheFile},
+	{file: "GoList.lean", src: "(fixed prelude: Go's slice operations on lists, map-as-set, sort.Ints, strings.IndexByte)", run: genGoList},
+	{file: "CliDelete.lean", src: "cmd/gts/delete.go (the per-record step)", run: genCliDelete},
+	{file: "CliInsert.lean", src: "cmd/gts/insert.go, infix.go (the per-record steps)", run: genCliInsert},
+	{file: "CliSplit.lean", src: "cmd/gts/split.go (the per-record step)", run: genCliSplit},
+	{file: "CliRotate.lean", src: "cmd/gts/rotate.go (the per-record step)", run: genCliRotate},
+	{file: "CliExtract.lean", src: "cmd/gts/extract.go (containsRegion, the per-record step)", run: genCliExtract},
 }
 
 func writeIfChanged(path string, content []byte) (bool, error) {
